@@ -80,3 +80,13 @@ func init() {
 		NotCovered:  "sufficiency of the error constants; that RectBounder's per-edge latitude extremum is right; convex hull convexity.",
 	}
 }
+
+func init() {
+	Properties["C19"] = PropertySpec{
+		Rules: []string{"R-ORDER", "R-COMPONENT"},
+		Explanation: "Soundness of the interval algebra with respect to point membership, decided exhaustively over the order types of the operands for the comparison-only code of r1.Interval and s1.Interval " +
+			"(abstract interpretation of the source over weak orderings), plus the component-wise composition of the rectangle operations.",
+		NotCovered: "Expanded, Project, Center, Length, ApproxEqual, chord-angle arithmetic and all of Cap (genuine arithmetic); s2.Rect operations with polar/antimeridian special cases beyond Contains/Intersects/Union.",
+		Assumptions: []string{"operands of s1.Interval lie in [-Pi, Pi] (the type's documented domain)", "the point-set specification written in orderspec.go (closed intervals; -Pi identified with Pi; empty = (Pi,-Pi))"},
+	}
+}
